@@ -93,7 +93,7 @@ let () =
     | _ -> { !cfg with fix_f7 = true; fix_f14 = false; fix_f7b = true } in
   let tin = ref tinit0 in
   (* descriptors the TightVNC extension lost (TLostFd), per tight variant: they show at teardown *)
-  let ntv = 6 in   (* five TightVNC message-flow variants + the tree's flow with the gate of notes/fix_C19_6.diff *)
+  let ntv = 6 in   (* five TightVNC message-flow variants + the tree's flow with the gate of the flow before 2a9083d *)
   let tlost = Array.make ntv 0 in
   let i = ref 0 in
   let take_env () =
@@ -169,19 +169,20 @@ let () =
        tin := st;
        let r = string_of_bytes st.t_root in
        let sl = String.length sbp in
-       (* the tree: IsFileTransferEnabled() = the flag; alt1 = with notes/fix_C19_6.diff: the flag && a root was accepted *)
+       (* the tree (since 2a9083d): IsFileTransferEnabled() = the flag && a root was accepted; alt1 = the flow before it
+          (regression variant, F19e): the flag alone *)
        let line fx =
          if String.length r >= sl && String.sub r 0 sl = sbp
          then Printf.sprintf "tinit enabled=%s root=@ %s" (b2s (t_effective fx st)) (hex_of_bytes (bytes_of_string (String.sub r sl (String.length r - sl))))
          else Printf.sprintf "tinit enabled=%s root== %s" (b2s (t_effective fx st)) (hex_of_bytes st.t_root) in
-       print_endline (line false);
-       if line true <> line false then print_endline ("alt1 " ^ line true)
+       print_endline (line true);
+       if line false <> line true then print_endline ("alt1 " ^ line false)
      | "tight" :: en0 :: vo :: suf :: rest ->
        let _ = take_env () in
        print_endline "tight";
        let keep = (en0 = "keep") in
-       let en = if keep then (if t_effective false !tin then "1" else "0") else en0 in
-       let en_fx = if keep then (if t_effective true !tin then "1" else "0") else en0 in
+       let en = if keep then (if t_effective true !tin then "1" else "0") else en0 in
+       let en_fx = if keep then (if t_effective false !tin then "1" else "0") else en0 in   (* gate of the flow before 2a9083d *)
        let ftproot = if keep then !tin.t_root else bytes_of_string (root ^ "/sb" ^ unhex suf) in
        (* results of creat() recorded from the implementation run: last token "creat:<digits>" *)
        let has_pfx p t = String.length t >= String.length p && String.sub t 0 (String.length p) = p in
